@@ -23,10 +23,20 @@ use crate::rng::Rng;
 use crate::Ctx;
 
 pub fn gen_case(rng: &mut Rng, idx: usize, thorough: bool) -> Value {
+    if idx % 2 == 1 {
+        // grammars in which different histories reach the same lexer state and row index with a
+        // different parser context; clones diverge first and query back to back afterwards
+        let fams = eng::families();
+        let pick = [0usize, 1, 9, 11, 3, 7][(idx / 2) % 6];
+        let (g, t) = &fams[pick];
+        return json!({"grammar": g.to_json(), "texts": t.iter().map(|s| crate::vocab::hex(s.as_bytes())).collect::<Vec<_>>(),
+               "vocab_kind": (idx / 2) % 2, "canonical": false, "seed": rng.next() % 1_000_000_000,
+               "mode": 4, "n_clones": 2 + rng.below(4), "ops": 2 + rng.below(3)});
+    }
     let (g, texts) = eng::gen_grammar(rng, idx);
     json!({"grammar": g.to_json(), "texts": texts.iter().map(|t| crate::vocab::hex(t)).collect::<Vec<_>>(),
            "vocab_kind": 1 + idx % 2, "canonical": false, "seed": rng.next() % 1_000_000_000,
-           "mode": idx % 4, "n_clones": 2 + rng.below(if thorough { 15 } else { 7 }), "ops": if thorough { 60 } else { 30 }})
+           "mode": (idx / 2) % 4, "n_clones": 2 + rng.below(if thorough { 15 } else { 7 }), "ops": if thorough { 60 } else { 30 }})
 }
 
 fn hash_content(c: &[u32]) -> u64 {
@@ -204,6 +214,58 @@ pub fn run_case(_ctx: &Ctx, case: &Value, tag: usize, rep: &mut Report, mb: &mut
             }
             rep.count_n("threads.clones", n as u64);
             rep.nontrivial(format!("threads|{}|{n}", case["grammar"]));
+        }
+        4 => {
+            // diverge, then query back to back: every clone commits a different first token and
+            // `depth` further tokens chosen through a private shadow engine (no query on the clone
+            // itself), then all clones compute their masks one after the other, in two orders
+            let depth = n_ops;
+            let Ok(first) = eng::mask_of(&mut base.deep_clone()) else { rep.skip("mask"); return; };
+            let firsts: Vec<u32> = first.iter().copied().filter(|t| *t != w.eos).collect();
+            if firsts.len() < 2 { rep.skip("single-first-token"); return; }
+            for order in 0..2 {
+                let mut clones: Vec<Clone_> = vec![];
+                for i in 0..n.min(firsts.len()) {
+                    let mut c = Clone_ { m: if i % 4 == 3 { base.deep_clone() } else { base.clone() }, toks: vec![] };
+                    let mut shadow = w.matcher(&g);
+                    let mut t = firsts[(i * 7 + order) % firsts.len()];
+                    for d in 0..=depth {
+                        if c.m.consume_token(t).is_err() || shadow.consume_token(t).is_err() { break; }
+                        c.toks.push(t);
+                        if shadow.is_stopped() || d == depth { break; }
+                        let Ok(al) = eng::mask_of(&mut shadow) else { break };
+                        if al.is_empty() { break; }
+                        // prefer the same continuation in every clone so that lexer states coincide
+                        t = al[(17 * (d + 1)) % al.len()];
+                    }
+                    clones.push(c);
+                }
+                let idxs: Vec<usize> = if order == 0 { (0..clones.len()).collect() } else { (0..clones.len()).rev().collect() };
+                for &i in &idxs {
+                    if clones[i].m.is_stopped() { continue; }
+                    let mask = eng::mask_of(&mut clones[i].m);
+                    let mut private = w.replay(&g, &clones[i].toks);
+                    let pmask = eng::mask_of(&mut private);
+                    if mask != pmask {
+                        rep.fail("oracle", "c14:back-to-back-mask-vs-private", format!("clone {i} (history {:?}) queried after its siblings: mask differs from a private engine's", clones[i].toks), json!({"case": case, "order": order}));
+                        return;
+                    }
+                }
+                // a deep clone taken right after a sibling's query
+                if let Some(c0) = clones.first() {
+                    let mut d = Clone_ { m: c0.m.deep_clone(), toks: c0.toks.clone() };
+                    if !d.m.is_stopped() {
+                        let mask = eng::mask_of(&mut d.m);
+                        let pmask = eng::mask_of(&mut w.replay(&g, &d.toks));
+                        if mask != pmask {
+                            rep.fail("oracle", "c14:deep-clone-mask-vs-private", "deep clone taken after a sibling's query: mask differs from a private engine's".into(), json!({"case": case, "order": order}));
+                            return;
+                        }
+                    }
+                }
+            }
+            rep.count("diverge_then_query.cases");
+            rep.nontrivial(format!("diverge|{}|{n}|{depth}", case["grammar"]));
         }
         _ => {
             // batch mask computation of the C API over clones of one constraint
